@@ -650,5 +650,42 @@ def Font.deser (data : List (String × FVal)) (f : Font) : Font :=
 
 def Font.error (f : Font) : Option String := orErr f.layers.err f.reg.error
 
+/-! ### change propagation: which nodes reach the root
+
+A change of a node makes the node dirty and posts its `*.Changed`; the container's observer callback then
+does the same for the container, and so on.  So a change reaches every ancestor iff every link on the way
+up is observed.  `…propagation path o up` lists, for the node at `path` and every node below it, whether
+all links from it up to the root are observed (`up`: the links above the node's own link are). -/
+
+def ns (n : Nat) : String := ToString.toString n
+
+def idx {α : Type} (l : List α) : List (String × α) := l.zipIdx.map fun p => (ns p.2, p.1)
+
+def Glyph.propagation (p : String) (g : Glyph) (up : Bool) : List (String × Bool) :=
+  let u := up && g.observed
+  let f := g.fullyLoad
+  [(p, u), (p ++ "/lib", u && g.lib.observed), (p ++ "/image", u && g.imageObj.observed)]
+  ++ (idx f.contours).map (fun ic => (p ++ "/c/" ++ ic.1, u && ic.2.observed))
+  ++ (idx f.components).map (fun ic => (p ++ "/k/" ++ ic.1, u && ic.2.observed))
+  ++ (idx f.anchors).map (fun ic => (p ++ "/a/" ++ ic.1, u && ic.2.observed))
+  ++ (idx f.guidelines).map (fun ic => (p ++ "/g/" ++ ic.1, u && ic.2.observed))
+
+def Layer.propagation (p : String) (ly : Layer) (up : Bool) : List (String × Bool) :=
+  let u := up && ly.observed
+  [(p, u), (p ++ "/lib", u && ly.lib.observed)]
+  ++ ly.glyphs.flatMap (fun ng => ng.2.propagation (p ++ "/G/" ++ ng.1) u)
+
+/-- `up`: the link from the layer set to whatever observes it (inside a font: the font) is fine; for a layer
+set on its own the chain ends at the layer set -/
+def LayerSet.propagation (p : String) (ls : LayerSet) (up : Bool) : List (String × Bool) :=
+  ls.layers.flatMap (fun nl => nl.2.propagation (p ++ "/L/" ++ nl.1) up)
+
+def Font.propagation (f : Font) : List (String × Bool) :=
+  [("features", f.features.observed), ("data", f.data.observed), ("images", f.images.observed),
+   ("groups", f.groups.observed), ("kerning", f.kerning.observed), ("lib", f.lib.observed),
+   ("info", f.info.observed)]
+  ++ f.layers.propagation "layers" f.layers.observed
+  ++ (idx f.guidelines).map (fun ic => ("fg/" ++ ic.1, ic.2.observed))
+
 end Serial
 end DefconModel
